@@ -197,6 +197,48 @@ def c17_h3(ctx):
             yield ok("C17-H3", key, at(f), {"reachable": len(seen), "terminates": True})
 
 
+def _root_local(f, l, depth=0):
+    """Follow `tmp = move/copy x` chains of a temporary back to the local it copies."""
+    if depth > 6:
+        return l
+    ds = f.defs(l)
+    if len(ds) == 1 and ds[0][0] == "assign" and ds[0][3]["k"] == "use" and ds[0][3]["op"].get("k") in ("move", "copy") and not ds[0][3]["op"]["place"]["proj"]:
+        return _root_local(f, ds[0][3]["op"]["place"]["local"], depth + 1)
+    return l
+
+
+def _fault_forwarders(ctx, fns, nm):
+    """Methods of the transaction that hand one of their own parameters on to handle_fault
+    (directly or through another such method): {fn.norm: argument index}."""
+    fw = {}
+    changed = True
+    rounds = 0
+    while changed and rounds < 4:
+        changed = False
+        rounds += 1
+        for f in fns:
+            if f.norm in fw:
+                continue
+            for b, t in f.all_calls():
+                d, r, _ = ctx.prog.callee_of(t)
+                cal = r or d or ""
+                idx = 1 if cal.endswith(nm + "::handle_fault") else None
+                if idx is None:
+                    g = ctx.prog.by_norm.get(cal)
+                    if g is not None and g.norm in fw:
+                        idx = fw[g.norm]
+                if idx is None or idx >= len(t["args"]):
+                    continue
+                a = t["args"][idx]
+                if a.get("k") in ("move", "copy") and not a["place"]["proj"]:
+                    l = _root_local(f, a["place"]["local"])
+                    if 1 <= l <= f.arg_count:
+                        fw[f.norm] = l - 1
+                        changed = True
+                        break
+    return fw
+
+
 @rule("C17", "C17-H4", 5, "a limit fault is declared only under the matching counter's limit_reached(), and only through the handler routine")
 def c17_h4(ctx):
     def track(key):
@@ -205,10 +247,22 @@ def c17_h4(ctx):
     n = 0
     for adt, nm in TXNS:
         fns = impl_fns(ctx, adt)
+        fw = _fault_forwarders(ctx, fns, nm)
         cnt = {}
-        for f, b, t, d, r in call_sites(fns, ends(nm + "::handle_fault"), ctx.prog):
+        sites = []
+        for f in fns:
+            for b, t in f.all_calls():
+                d, r, _ = ctx.prog.callee_of(t)
+                cal = r or d or ""
+                if cal.endswith(nm + "::handle_fault"):
+                    sites.append((f, b, t, 1))
+                else:
+                    g = ctx.prog.by_norm.get(cal)
+                    if g is not None and g.norm in fw:
+                        sites.append((f, b, t, fw[g.norm]))
+        for f, b, t, idx in sites:
             e = ExprBuilder(ctx.prog, f).call(b, t)
-            c = e[3][1] if len(e[3]) > 1 else None
+            c = e[3][idx] if len(e[3]) > idx else None
             if c is None or c[0] != "agg" or c[3] not in LIMIT_FAULTS:
                 continue
             n += 1
@@ -234,8 +288,11 @@ def c17_h4(ctx):
                         if tt["k"] == "call":
                             d, r, _ = ctx.prog.callee_of(tt)
                             cal = r or d or ""
+                            g = ctx.prog.by_norm.get(cal)
                             if cal.endswith("::handle_fault") and any(a.get("k") in ("move", "copy") and a["place"]["local"] == dest["local"] for a in tt["args"]):
                                 uses_ok = True
+                            elif g is not None and g.norm in fw and fw[g.norm] < len(tt["args"]) and tt["args"][fw[g.norm]].get("k") in ("move", "copy") and _root_local(f, tt["args"][fw[g.norm]]["place"]["local"]) == dest["local"]:
+                                uses_ok = True  # handed to a method that passes it on to handle_fault
                             elif cal.endswith("::eq") or cal.endswith("::ne"):
                                 uses_ok = True
                         # comparisons: the constant is borrowed for PartialEq in a later block
@@ -267,6 +324,18 @@ def c17_w(ctx):
     for adt, nm in TXNS:
         f = ctx.one("C17-W", nm + "::handle_timeout")
         eb = ExprBuilder(ctx.prog, f)
+        # methods of the transaction that end in the fault handler or abandon on every path
+        always_fault = set()
+        for g in impl_fns(ctx, adt):
+            if g.name in ("handle_fault", "abandon", "handle_timeout"):
+                continue
+            stop = set()
+            for b2, t2 in g.all_calls():
+                d2, r2, _ = ctx.prog.callee_of(t2)
+                if (r2 or d2 or "").endswith((nm + "::handle_fault", nm + "::abandon")):
+                    stop.add(b2)
+            if stop and not any(g.blocks[x]["term"]["k"] == "return" for x in g.reachable(0, avoid=stop)):
+                always_fault.add(g.name)
         # per block: self-calls and field writes
         info = {}
         for b in f.live_blocks():
@@ -332,7 +401,7 @@ def c17_w(ctx):
                 c0, w0 = info.get(x, ([], []))
                 if (c0 or w0) and spec[1](calls, writes):
                     done.add(x)
-                if any(c[0] in ("handle_fault", "abandon", "from_residual") for c in c0):
+                if any(c[0] in ("handle_fault", "abandon", "from_residual") or c[0] in always_fault for c in c0):
                     done.add(x)
             r2 = f.reachable(true_start, avoid=done)
             if any(f.blocks[x]["term"]["k"] == "return" for x in r2) and true_start not in done:
@@ -645,6 +714,14 @@ def c17_t2(ctx):
     r = ctx.one("C17-T2", "timer::Counter::restart")
     upd = [b for b, t in r.all_calls() if (ctx.prog.callee_of(t)[1] or ctx.prog.callee_of(t)[0] or "").endswith("Counter::update")]
     unp = [b for _f, b, j, s, ps in field_writes([r], "self.paused")]
+    # ... or a call to a Counter method that (transitively) writes `paused`
+    cfns = impl_fns(ctx, COUNTER)
+    writers = {g.norm for g in cfns if list(field_writes([g], "self.paused"))}
+    for _ in range(3):
+        for g in cfns:
+            if g.norm not in writers and any((ctx.prog.callee_of(t)[1] or ctx.prog.callee_of(t)[0] or "") in writers for b, t in g.all_calls()):
+                writers.add(g.norm)
+    unp += [b for b, t in r.all_calls() if (ctx.prog.callee_of(t)[1] or ctx.prog.callee_of(t)[0] or "") in writers and b not in upd]
     if upd and unp and all(all(u in r.reachable(r.blocks[x]["term"]["target"]) or u == r.blocks[x]["term"]["target"] for u in unp) for x in upd) and not any(x in r.reachable(u) and x != u for u in unp for x in upd):
         yield ok("C17-T2", "Counter::restart:order", at(r), "update() before paused = false")
     elif upd and unp and all(u == x for u in unp for x in upd):
